@@ -112,9 +112,16 @@ impl<'a> Layer<'a> {
     /// Returns if this layer is visible. This requires that this layer and all
     /// of its parent layers are visible.
     pub fn is_visible(&self) -> bool {
-        let layer_is_visible = self.data().flags.contains(LayerFlags::VISIBLE);
-        let parent_is_visible = self.parent().map(|p| p.is_visible()).unwrap_or(true);
-        layer_is_visible && parent_is_visible
+        // Walk up the chain of parents iteratively: nesting depth is only
+        // limited by the file, so recursion could exhaust the stack.
+        let mut current = Some(self.layer_id);
+        while let Some(id) = current {
+            if !self.file.layers[id].flags.contains(LayerFlags::VISIBLE) {
+                return false;
+            }
+            current = self.file.layers.parents[id as usize];
+        }
+        true
     }
 
     /// Get a reference to the Cel for this frame in the layer.
